@@ -33,21 +33,116 @@ PROPS = {
             "voter lists are the key lists of Go maps (duplicate free); acknowledged indexes are uint64 values",
         ],
     },
-    "C07": {
-        "props": "Props/C07.v",
-        "level": "proof",
+}
+
+_COMMON_ASSUME = [
+    "terms, indexes and sizes stay below 2^63 (no uint64 wrap-around in additions)",
+    "the Gallina model (coq/Model) is a hand transcription of raft.go, log.go, log_unstable.go, rawnode.go, storage.go, "
+    "tracker/, confchange/, quorum/, read_only.go; it is tied to /repo by the lockstep comparison of this run",
+]
+
+_TIE = ("The model is tied to /repo on every run: each call the cluster harness makes on a real RawNode or its MemoryStorage is "
+        "replayed on the extracted model and Ready contents, the full internal state and the storage are compared key by key; "
+        "property monitors evaluate the property itself on the implementation's behaviour and provide the replay.")
+
+
+def _p(pid, level, expl, assume, extra=None):
+    d = {
+        "props": "Props/%s.v" % pid,
+        "level": level,
         "cluster": True,
         "rule": CLUSTER_RULE,
-        "explanation": "Theorems C07_incarnation / C07_exposed / C07_restart / C07_step (Props/C07.v): over the executable "
-        "node model (Model/Raft.v, RawNode.v: a function-by-function transcription of raft.go and rawnode.go) the hard state "
-        "(term, vote, commit) moves forward only, for every sequence of RawNode API calls, every message of any type, term "
-        "and content, every storage write, and a restart continues from exactly the persisted hard state. The model is tied "
-        "to /repo by lockstep execution: every call made on a real RawNode by the cluster harness is replayed on the "
-        "extracted model and all observables (Ready contents, full internal state, storage) compared.",
-        "assumptions": [
-            "wf_input: a stepped MsgApp/MsgHeartbeat/MsgSnap carries a non-zero term (true of every message raft sends)",
-            "terms, indexes and sizes stay below 2^63 (no uint64 wrap-around in additions)",
-            "clause (d) of the design (no emitted message carries a term below the incarnation's starting term) is monitored on the implementation, not yet proved",
-        ],
-    },
-}
+        "explanation": expl + " " + _TIE,
+        "assumptions": assume + _COMMON_ASSUME,
+    }
+    if extra:
+        d.update(extra)
+    PROPS[pid] = d
+
+
+_p("C01", "exploration",
+   "Cluster-level statement (identical hand-outs everywhere, forever) is EXPLORED: monitors compare every committed-entry hand-out and every "
+   "commit-time prefix across all nodes and incarnations on every generated schedule. Proved node-locally (Props/C01.v): what a node hands out "
+   "is the consecutive run of its log after the applying cursor within commit; commit moves forward only.",
+   ["crash model of the main stream: the persistent writes of one Ready / one MsgStorageAppend are atomic (CrashAtomic)"])
+_p("C02", "proof",
+   "Proved for every state and message (Props/C02.v): one vote per term across the incarnation and restart from the durable vote (hs_le), a vote is "
+   "granted only if canVote holds and the candidate's log is up to date, a candidate becomes leader only when the tally over the joint "
+   "configuration (C12) is VoteWon. The cluster-level composition (at most one leader per term) is checked by monitors on every schedule, not proved.",
+   ["wf_msg: leader messages carry a non-zero term", "known finding F5 (async storage: leadership before the own vote is durable) is classified separately"])
+_p("C03", "exploration",
+   "Cross-node log matching is EXPLORED: monitors compare all pairs of logical logs (storage + unstable) after every step. Proved node-locally "
+   "(Props/C03.v): every log keeps consecutive indexes under overwrite-from-index; the leader stamps its term at lastIndex+1...", [])
+_p("C04", "exploration",
+   "Leader completeness is EXPLORED: at every leadership change the monitor compares the new leader's log with every entry known committed. "
+   "Proved node-locally (Props/C04.v): votes only for up-to-date logs; commit only of own-term entries at the quorum index.", [])
+_p("C05", "proof",
+   "Proved for every function of the node and every input (Props/C05.v, Proofs/RaftRouting.v): MsgAppResp / MsgVoteResp / MsgPreVoteResp are only "
+   "ever appended to msgsAfterAppend, never to the immediately sendable queue; the static configuration is untouched; restart state is a function "
+   "of storage. That the application persists before sending is the Ready contract, implemented by the harness' application model; monitors check "
+   "at send time that storage holds the promised vote / entries.", [])
+_p("C06", "proof",
+   "Proved (Props/C06.v): maybeCommit moves commit only to the joint quorum index of Match (exact by C12) and only if the entry there has the leader's "
+   "term and lies within the log; heartbeats carry min(Match, commit); commitTo never passes the last index; commit never decreases. That Match "
+   "reflects durable storage on the followers is cluster-level and checked by monitors (durable joint quorum at every commit advancement).", ["wf_msg"])
+_p("C07", "proof",
+   "Theorems C07_incarnation / C07_exposed / C07_restart / C07_step: the hard state (term, vote, commit) moves forward only, for every sequence of "
+   "RawNode API calls, every message of any type, term and content, every storage write; a restart continues from exactly the persisted hard state.",
+   ["wf_input: a stepped MsgApp/MsgHeartbeat/MsgSnap carries a non-zero term (true of every message raft sends)",
+    "clause (d) (no emitted message carries a term below the incarnation's starting term) is monitored, not yet proved"])
+_p("C08", "proof",
+   "Proved (Props/C08.v) for every well-formed log/storage state: nextCommittedEnts returns nothing while paused or while a snapshot is pending, "
+   "otherwise consecutive entries starting right after the applying cursor, within commit, and (async) below the unstable offset; batches respect "
+   "the size budget up to one entry. Exactly-once across Ready/Advance interleavings is monitored on every schedule.",
+   ["well-formedness of storage and unstable log (consecutive indexes), established by C18's theorems"])
+_p("C09", "proof",
+   "Proved (Props/C09.v): restore never lowers commit, returns false without touching the unstable log when index <= commit / not in the "
+   "snapshot's membership / (index, term) already matches, restores only as follower; the response is a promise message (withheld until "
+   "persistence). 'Every snapshot a leader sends is a committed prefix' and 'no fork' are monitored.", [])
+_p("C10", "proof",
+   "Proved (Props/C10.v): the propose-time gate (a change survives only if pendingConfIndex <= applied and the joint/leave shape fits, otherwise it "
+   "is replaced by an empty normal entry; surviving changes move pendingConfIndex), hup refuses while a committed change is unapplied, a new "
+   "leader's pendingConfIndex is its last index, accepted changes keep the configuration invariants (C13), joint decisions use both halves (C12). "
+   "'All nodes derive the same configurations' is monitored (configuration after index i compared across nodes).",
+   ["DisableConfChangeValidation = false for the gate lemma", "known finding F9 (ApplyConfChange after restore) is classified separately"])
+_p("C11", "proof",
+   "Proved (Props/C11.v): a leader that is not the sole voter and has not committed in its term only postpones a MsgReadIndex; reads are released "
+   "exactly up to the joint quorum order statistic of acknowledged positions (C12); read bookkeeping is dropped on every reset. Linearizability "
+   "across the cluster is monitored (read index >= every commit reported before the request).",
+   ["known finding F3 (sole-voter shortcut precedes the own-term-commit test) is classified separately"])
+_p("C13", "proof",
+   "Proved (Props/C13.v) for every tracker state and change list: an accepted Simple / EnterJoint / LeaveJoint yields a configuration satisfying the "
+   "invariants of checkInvariants (as a proposition: members have progress, staged learners are outgoing voters and not learners, learners are "
+   "disjoint from both voter sets, non-joint implies no staging and no auto-leave), keeps an incoming voter, Simple changes the voter set by at "
+   "most one; a rejected change yields no configuration. Restore round-trip and 'non-members have no progress' are covered by the lockstep tie only.", [])
+_p("C14", "exploration",
+   "No-panic under contract-respecting usage is EXPLORED: every call on every generated schedule is made under recover(); any panic is a violation "
+   "unless classified as a known finding. Every panic site of the modelled code is an explicit Panic result of the model and panic/no-panic is "
+   "compared in lockstep. Proved locally (Props/C14.v): the nested Step never reaches the model's recursion leaf; Inflights.Add full; writes keep storage well formed.",
+   ["Env.cc_keeps_voter, Env.snapshot_sound, Env.snap_before_entries, Env.apply_before_snap_step (DESIGN.md 3.3) are enforced by the generator"])
+_p("C15", "exploration",
+   "Convergence after faults stop is EXPLORED, not proved. Proved (Props/C15.v): heartbeat responses un-pause a follower; a pending transfer is aborted "
+   "when the election timeout elapses.", [])
+_p("C16", "proof",
+   "Proved (Props/C16.v): limitSize / raftLog.slice / entries return within the budget or a single entry, for every log and storage; every MsgApp "
+   "queued by maybeSendAppend respects MaxSizePerMsg or carries one entry and nothing is sent in StateSnapshot; the uncommitted-size rule "
+   "(exact refusal condition, refusal changes nothing); Inflights never exceeds its size, Add on a full window is refused. The per-follower "
+   "window over a whole leadership is monitored.", [])
+_p("C17", "proof",
+   "Proved for every state and message (Props/C17.v): a pre-vote request never changes term or vote; becoming pre-candidate neither; with PreVote a "
+   "MsgHup does not raise the term; a pre-candidate raises its term only on a completed tally over the joint configuration; inside the leader lease "
+   "a non-forced higher-term (pre-)vote request changes nothing. CheckQuorum step-down timing is monitored via lockstep only.",
+   ["known finding F11 (a stale pre-vote grant of the previous pre-candidacy is counted) is classified separately"])
+_p("C18", "proof",
+   "Proved (Props/C18.v): MemoryStorage refines an abstract log (base + consecutive entries): Term / Entries answer exactly as the abstract log with "
+   "ErrCompacted / ErrUnavailable exactly outside the range, size-limited non-empty prefixes; Append (truncate-and-append), Compact, ApplySnapshot, "
+   "CreateSnapshot keep it well formed; the unstable tail stays one consecutive log under overwrite-from-index and only matching (index, term) "
+   "acknowledgements drop a prefix (stale/ABA ones are ignored); raftLog.slice returns consecutive entries.", [])
+_p("C19", "proof",
+   "The model is a function of (state, input, draws) and the quorum decisions are proved independent of iteration order (Props/C19.v). The tie for "
+   "this property is the code against itself: every schedule is executed twice in separate instances and the complete traces (every Ready, "
+   "message order included) must be byte-identical; plus lockstep with the model, whose iteration is over sorted keys.", [])
+_p("C20", "proof",
+   "Proved (Props/C20.v): appendEntry stamps term/index and keeps type, payload and order; a proposal that does not fit is reported dropped and "
+   "appends nothing; a follower forwards the proposal unchanged to its leader or reports it dropped and queues nothing; a candidate drops. "
+   "Cluster-level provenance (every payload in every log stems from a Propose call, no duplication beyond deliveries) is monitored with unique tokens.", [])
